@@ -70,7 +70,7 @@ def edit_chains(ctx):
     from .. import tracecheck
     wd = tlc.workdir_for("c18trace")
     rnd = random.Random(500 + ctx.seed)
-    n_tr, n_ed = (300, 25) if ctx.tier == "quick" else (3000, 60)
+    n_tr, n_ed = (300, 25) if ctx.tier == "quick" else (1500, 40)
     pal = {"scheme": {x: x for x in ("http", "https", "ws", "wss")}, "user": dict(USERS, none=None, u4="al:ice"), "password": dict(PWS, none=None), "host": HOSTS,
            "port": dict({x: int(x) for x in PORTS}, none=None), "path": T_PATHS, "query": QUERIES, "fragment": FRAGS}
     inv = {k: {(str(v) if v is not None else NONE): t for t, v in m.items()} for k, m in pal.items()}
